@@ -259,7 +259,7 @@ pub fn wdec(ctx: &mut Ctx, plan: DecPlan) {
                 continue;
             }
             let mut r = rng_for(ctx.seed, &["ground"], g);
-            let rec = gen::random_valid(&mut r, pool(Scheme::Secp));
+            let rec = gen::random_valid(&mut r, pool(if g % 4 == 3 { Scheme::Ed } else { Scheme::Secp }));
             for (cls, m) in gen::ground_signatures(&rec, 4000) {
                 judge_input(ctx, cls, &m, t);
                 // drop / pad the (zero) leading bytes of r and s, re-framed
@@ -368,6 +368,9 @@ pub fn tag_sweep(ctx: &mut Ctx) {
 
 pub fn c01(ctx: &mut Ctx) {
     let q = ctx.quick();
+    if !cfg!(miri) {
+        history_interference(ctx);
+    }
     wdec(ctx, DecPlan {
         fixed_bases: if q { 48 } else { 96 },
         seeded_bases: if q { 48 } else { 1900 },
@@ -384,6 +387,9 @@ pub fn c01(ctx: &mut Ctx) {
 
 pub fn c02(ctx: &mut Ctx) {
     let q = ctx.quick();
+    if !cfg!(miri) {
+        history_interference(ctx);
+    }
     wdec(ctx, DecPlan {
         fixed_bases: if q { 96 } else { 200 },
         seeded_bases: if q { 160 } else { 6000 },
@@ -526,6 +532,72 @@ pub fn negated_key_pairs(ctx: &mut Ctx) {
             forged.seq += round;
             judge_input(ctx, "pubkey-negated", &gen::assemble(&k, &forged.items(), &forged.items()), JudgeOpts { text: false });
             judge_input(ctx, "valid-negated-pair", &a.bytes(), JudgeOpts { text: false });
+        }
+    }
+}
+
+
+/// C02 across calls: between the steps of update histories (which sign, verify and fail in many ways on
+/// this thread) a fixed set of well-formed and ill-formed records is decoded again; each must get the
+/// verdict RefDecode gives it alone, whatever the thread did before.
+pub fn history_interference(ctx: &mut Ctx) {
+    use crate::hist::{apply_build, apply_op};
+    use crate::keys::*;
+    use crate::model::{BEntry, Signer, Val};
+    use crate::plans::*;
+    let probes: Vec<(&'static str, Vec<u8>)> = {
+        let k = RefKey::new(Scheme::Secp, secret_from(Scheme::Secp, 0x1f7));
+        let e = RefKey::new(Scheme::Ed, secret_from(Scheme::Ed, 0x1f8));
+        let mut v = vec![("probe-valid", crate::util::unhex(crate::model::EXAMPLE_RECORD_HEX).unwrap())];
+        for key in [k, e] {
+            let mut rec = Rec::minimal(key, 77);
+            rec.map.insert(b"udp".to_vec(), Item::S(vec![0x76, 0x5f]));
+            let good = rec.bytes();
+            let mut forged = rec.clone();
+            forged.map.insert(b"udp".to_vec(), Item::S(vec![0x76, 0x60]));
+            let sg = key.sign(&gen::content_of(&rec.items()));
+            v.push(("probe-valid", good));
+            v.push(("probe-forged-copy", gen::assemble_with_sig(&sg, &forged.items())));
+        }
+        v
+    };
+    let total = ctx.vol(if ctx.quick() { 160 } else { 8000 });
+    let ks = kinds();
+    for i in 0..total {
+        if !ctx.mine(i) {
+            continue;
+        }
+        if ctx.expired() {
+            return;
+        }
+        let mut r = rng_for(ctx.seed, &["interference"], i);
+        let (kt, scheme) = ks[(i / ctx.nshards) as usize % ks.len()];
+        let h = random_history(&mut r, scheme, 12);
+        macro_rules! go {
+            ($kk:ty) => {{
+                let own = <$kk as KeyKind>::make(scheme, &secret_from(scheme, h.own));
+                let other = <$kk as KeyKind>::make(scheme, &secret_from(scheme, h.other));
+                if let Ok(Ok(mut e)) = crate::util::guard(|| apply_build::<<$kk as KeyKind>::K>(&[BEntry::Udp4(5), BEntry::Add(b"x".to_vec(), Val::U8(1))], &own)) {
+                    for st in &h.steps {
+                        let (s, n) = if st.signer == Signer::Own { (&own, &other) } else { (&other, &own) };
+                        let _ = crate::util::guard(|| apply_op(&mut e, &st.op, s, n));
+                        for (cls, p) in &probes {
+                            judge_input(ctx, cls, p, JudgeOpts { text: false });
+                        }
+                        ctx.count("interference-steps");
+                    }
+                }
+            }};
+        }
+        match kt {
+            KT::K256 => go!(K256K),
+            #[cfg(feature = "libsecp")]
+            KT::Libsecp => go!(LibsecpK),
+            #[cfg(not(feature = "libsecp"))]
+            KT::Libsecp => {}
+            KT::Ed => go!(EdK),
+            KT::Comb => go!(CombK),
+            KT::Toy => go!(ToyK),
         }
     }
 }
